@@ -175,6 +175,40 @@ def run(ctx):
         ctx.hist('random/' + kind)
         one(tuple(float(x) for x in v), tols[:3] if n <= 300 else tols[:1])
     ctx.flush()
+    # LONG records (thousands of turning points) in which the series touches zero and turns back, dips to zero between excursions of
+    # the same sign, or sits on zero for a while: a vectorised path for long inputs must group exactly like the loop
+    for i in range(3 if ctx.tier == 'quick' else 12):
+        n = rng.choice([2500, 4000, 6000])
+        v = []
+        sgn = rng.choice([-1, 1])
+        while len(v) < n:
+            v += [sgn * rng.choice([0.25, 0.5, 1, 1.5, 2, 3, 5]) for _ in range(rng.randint(2, 6))]
+            r = rng.random()
+            if r < 0.35:
+                v += [0.0]                               # touch zero ...
+            elif r < 0.45:
+                v += [0.0] * rng.randint(2, 3)
+            if rng.random() < 0.5:                       # ... and turn back (same sign) half of the time
+                sgn = -sgn
+        ctx.hist('long/zero-touches')
+        one(tuple(float(x) for x in v[:n]), tols[:2])
+    # narrow integer dtypes: the indices are those of the same numbers as float64
+    for i in range(20 if ctx.tier == 'quick' else 200):
+        n = gen.log_int(rng, 3, 40)
+        v = gen.int_record(rng, n)
+        if len(set(v.tolist())) < 2:
+            continue
+        for label, arr, f64 in gen.narrow_int_variants(v):
+            ctx.hist('narrow-int/' + label)
+            for nm, call in (('zero crossings', lambda x: pc.get_zero_crossings_array_indices(x)),
+                             ('zero crossings/keep', lambda x: pc.get_zero_crossings_array_indices(x, keep_adj_zeros=True)),
+                             ('switched peaks', lambda x: pc.get_switched_peak_array_indices(x))):
+                want, got = call_impl(call, f64), call_impl(call, arr)
+                ok = want[0] == got[0] and (want[0] != 'ok' or list(map(int, want[1])) == list(map(int, got[1])))
+                ctx.oracle('C12 integer records of any width give the indices of the same numbers as float64 (%s)' % nm, ok,
+                           {'values': arr.tolist(), 'dtype': str(arr.dtype)}, detail={'float64': want[1] if want[0] != 'ok' else list(map(int, want[1]))[:12],
+                                                                                       'integer': got[1] if got[0] != 'ok' else list(map(int, got[1]))[:12]})
+    ctx.flush()
 
 
 # ---- known findings -------------------------------------------------------------------------------------------------
